@@ -368,6 +368,37 @@ func RulePF1(c *Ctx) {
 				k := fmt.Sprintf("%s{%s}:%s:%s", owner.Obj().Name(), strings.Join(names, ","), c.P.DeclName(u.fd), strings.Fields(kind.what)[0])
 				if len(miss) == 0 {
 					sc.Holds(k, c.P.Pos(at.Pos()), kind.what+" all of "+strings.Join(names, ", "))
+					// a push that reports success has pushed: where the function returns an
+					// error, each `return nil` comes after the append to every member
+					if kind.what == "appends to" {
+						info := u.pk.TypesInfo
+						cf := c.CFG(u.pk, u.fd.Body)
+						bad := ""
+						inspectNoLit(u.fd.Body, func(nd ast.Node) bool {
+							ret, ok := nd.(*ast.ReturnStmt)
+							if !ok || len(ret.Results) == 0 {
+								return true
+							}
+							last := ret.Results[len(ret.Results)-1]
+							tv, has := info.Types[last]
+							if !has || !tv.IsNil() {
+								return true
+							}
+							for _, f := range members {
+								grow := kind.m[f]
+								if !cf.MustAt(ret, nil, func(x ast.Node) bool { return x == grow }, nil) {
+									bad = fmt.Sprintf("the success return at %s is reached without the append to %s", c.P.Pos(ret.Pos()), f.Name())
+								}
+							}
+							return true
+						})
+						k2 := fmt.Sprintf("%s{%s}:%s:success-means-grown", owner.Obj().Name(), strings.Join(names, ","), c.P.DeclName(u.fd))
+						if bad == "" {
+							sc.Holds(k2, c.P.Pos(u.fd.Pos()), "every success return comes after the appends")
+						} else {
+							sc.Violation(k2, c.P.Pos(u.fd.Pos()), bad+": the caller is told the level was pushed and goes on as if it were on the stack - the file is missing from the on-stack record (an INCLUDE cycle through it is not seen, a JSIGHT directive in the included file is taken for the root's) and from every later trace")
+						}
+					}
 				} else {
 					sc.Violation(k, c.P.Pos(at.Pos()), fmt.Sprintf("%s %s of %s but not %s, although these slices are kept side by side elsewhere: from here on element i of one no longer belongs to element i of the other (a stale include-stack hash makes later directives pick up the include chain of a file that was already left)", kind.what, strings.Join(have, ", "), owner.Obj().Name(), strings.Join(miss, ", ")))
 				}
